@@ -391,6 +391,119 @@ Projection(m, starts) ==
            sl |-> [i \in 1..Len(starts) |-> SliceLabels(m, starts[i])]]
 
 ---------------------------------------------------------------------------
+(* C19: the same octets read item by item (a name, a question, a record at  *)
+(* a given offset) and as a whole message in the new API's flattened view   *)
+(* (questions, then records, the iteration ends at the first error; RDATA   *)
+(* is parsed with the item; an additional record that starts with 00 00 29  *)
+(* is the EDNS record).  Where the spec does not know the RDATA layout the  *)
+(* verdict is "und" (undecided) and only the two codecs are compared.       *)
+(*                                                                          *)
+(* NewRule = TRUE describes what the new codec does today                   *)
+(* (D_new_ptr_rule): a pointer must point to an offset >= 12 that lies      *)
+(* before the start of the label run it is read in, instead of just before  *)
+(* the pointer itself.                                                      *)
+
+RECURSIVE NameWalkN(_, _, _, _, _, _, _, _)
+NameWalkN(m, p, lim, acc, used, endp, seg, fuel) ==
+  IF fuel = 0 THEN NFail("fuel")
+  ELSE IF p >= lim THEN NFail("short")
+  ELSE LET b == At(m, p) IN
+    IF b = 0 THEN [ok |-> TRUE, why |-> "", name |-> acc,
+                   next |-> IF endp < 0 THEN p + 1 ELSE endp,
+                   wlen |-> used + 1, comp |-> endp >= 0]
+    ELSE IF b <= 63 THEN
+      IF p + 1 + b > lim THEN NFail("short")
+      ELSE IF used + b + 1 >= 255 THEN NFail("long")
+      ELSE NameWalkN(m, p + 1 + b, lim, Append(acc, Slice(m, p + 1, p + 1 + b)),
+                     used + b + 1, endp, seg, fuel - 1)
+    ELSE IF b >= 192 THEN
+      IF p + 1 >= lim THEN NFail("short")
+      ELSE LET t == (b - 192) * 256 + At(m, p + 1) IN
+        IF t < HdrLen \/ t >= seg THEN NFail("pointer")
+        ELSE NameWalkN(m, t, lim, acc, used, IF endp < 0 THEN p + 2 ELSE endp, t, fuel - 1)
+    ELSE NFail("labeltype")
+
+PName(newRule, m, pos, lim) ==
+  IF newRule THEN NameWalkN(m, pos, lim, <<>>, 0, -1, pos, NameFuel(m)) ELSE ParseName(m, pos, lim)
+
+CvFail == [ok |-> FALSE, und |-> FALSE, item |-> <<>>, next |-> 0]
+CvName(nr, m, pos) ==
+  LET n == PName(nr, m, pos, Len(m)) IN
+  IF n.ok THEN [ok |-> TRUE, und |-> FALSE, item |-> <<n.name>>, next |-> n.next] ELSE CvFail
+CvQuestion(nr, m, pos) ==
+  LET n == PName(nr, m, pos, Len(m)) IN
+  IF ~n.ok \/ n.next + 4 > Len(m) THEN CvFail
+  ELSE [ok |-> TRUE, und |-> FALSE, item |-> <<n.name, U16(m, n.next), U16(m, n.next + 2)>>,
+        next |-> n.next + 4]
+
+CvRdata(nr, m, type, rdpos, rdlen) ==
+  LET lim == rdpos + rdlen
+      one(p) == LET n == PName(nr, m, p, lim)
+                IN IF n.ok /\ n.next = lim THEN Rd("names", TRUE, <<n.name>>, <<>>)
+                   ELSE Rd("names", FALSE, <<>>, <<>>)
+  IN CASE type \in {T_NS, T_CNAME, T_PTR} -> one(rdpos)
+       [] type = T_MX -> IF rdlen < 2 THEN Rd("names", FALSE, <<>>, <<>>) ELSE one(rdpos + 2)
+       [] type = T_SOA ->
+            LET n1 == PName(nr, m, rdpos, lim) IN
+            IF ~n1.ok THEN Rd("names", FALSE, <<>>, <<>>)
+            ELSE LET n2 == PName(nr, m, n1.next, lim) IN
+              IF n2.ok /\ n2.next + 20 = lim THEN Rd("names", TRUE, <<n1.name, n2.name>>, <<>>)
+              ELSE Rd("names", FALSE, <<>>, <<>>)
+       [] OTHER -> Rdata(m, type, rdpos, rdlen)
+
+CvRecord(nr, m, pos) ==
+  LET n == PName(nr, m, pos, Len(m)) IN
+  IF ~n.ok \/ n.next + 10 > Len(m) THEN CvFail
+  ELSE LET rdlen == U16(m, n.next + 8)
+           rdpos == n.next + 10
+       IN IF rdpos + rdlen > Len(m) THEN CvFail
+          ELSE LET t == U16(m, n.next)
+                   rd == CvRdata(nr, m, t, rdpos, rdlen)
+               IN IF rd.k = "opaque" THEN [ok |-> FALSE, und |-> TRUE, item |-> <<>>, next |-> 0]
+                  ELSE IF ~rd.ok THEN CvFail
+                  ELSE [ok |-> TRUE, und |-> FALSE,
+                        item |-> <<n.name, t, U16(m, n.next + 2), U16(m, n.next + 4), U16(m, n.next + 6),
+                                   rd.names, rd.opts>>,
+                        next |-> rdpos + rdlen]
+
+\* the EDNS record of the new API: 00 00 29, class, ttl, RDLENGTH, options
+CvEdns(m, pos) ==
+  IF pos + 11 > Len(m) THEN CvFail
+  ELSE LET rdlen == U16(m, pos + 9) IN
+    IF pos + 11 + rdlen > Len(m) THEN CvFail
+    ELSE LET o == OptWalk(m, pos + 11, pos + 11 + rdlen, <<>>) IN
+      IF ~o.ok THEN CvFail
+      ELSE [ok |-> TRUE, und |-> FALSE,
+            item |-> <<<<>>, T_OPT, U16(m, pos + 3), U16(m, pos + 5), U16(m, pos + 7), <<>>, o.opts>>,
+            next |-> pos + 11 + rdlen]
+
+IsEdnsAt(m, pos) == pos + 3 <= Len(m) /\ At(m, pos) = 0 /\ At(m, pos + 1) = 0 /\ At(m, pos + 2) = T_OPT
+
+RECURSIVE NewWalk(_, _, _, _, _, _)
+NewWalk(nr, m, sec, pos, rem, acc) ==
+  IF rem = 0 THEN
+    (IF sec = 3 THEN [items |-> acc, end |-> "done"]
+     ELSE NewWalk(nr, m, sec + 1, pos, Count(m, sec + 1), acc))
+  ELSE LET it == IF sec = 0 THEN CvQuestion(nr, m, pos)
+                 ELSE IF sec = 3 /\ IsEdnsAt(m, pos) THEN CvEdns(m, pos)
+                 ELSE CvRecord(nr, m, pos)
+           tag == IF sec = 3 /\ IsEdnsAt(m, pos) THEN 4 ELSE sec
+       IN IF it.und THEN [items |-> acc, end |-> "und"]
+          ELSE IF ~it.ok THEN [items |-> acc, end |-> "err"]
+          ELSE NewWalk(nr, m, sec, it.next, rem - 1, Append(acc, <<tag, it.item>>))
+
+NewView(nr, m) ==
+  IF IsShort(m) THEN [items |-> <<>>, end |-> "short"]
+  ELSE NewWalk(nr, m, 0, HdrLen, QD(m), <<>>)
+
+CvOut(x) == [ok |-> x.ok, und |-> x.und, item |-> x.item, next |-> x.next]
+CodecView(nr, m, starts) ==
+  [names |-> [i \in 1..Len(starts) |-> CvOut(CvName(nr, m, starts[i]))],
+   qs |-> [i \in 1..Len(starts) |-> CvOut(CvQuestion(nr, m, starts[i]))],
+   rs |-> [i \in 1..Len(starts) |-> CvOut(CvRecord(nr, m, starts[i]))],
+   msg |-> NewView(nr, m)]
+
+---------------------------------------------------------------------------
 (* Laws (checked by TLC over the enumerated messages in MC_Wire)            *)
 
 AllNamesS(S) ==   \* every name the projection hands out
